@@ -172,8 +172,13 @@ type sigactionT struct {
 // would undo that, so the default disposition is restored first, through the system call itself.
 func dieBySignal(sig int) {
 	os.Stdout.Sync()
-	var dfl sigactionT
-	syscall.RawSyscall6(syscall.SYS_RT_SIGACTION, uintptr(sig), uintptr(unsafe.Pointer(&dfl)), 0, 8, 0, 0)
+	// ... but only for the signals that the harness itself inherited as ignored (it says which in
+	// VERIF_INHERITED_SIGIGN, the SigIgn mask of the worker process): a disposition that the code under
+	// test adds on the way to the command is the command's real environment and stays
+	if mask, err := strconv.ParseUint(os.Getenv("VERIF_INHERITED_SIGIGN"), 16, 64); err == nil && sig >= 1 && sig <= 64 && mask&(1<<uint(sig-1)) != 0 {
+		var dfl sigactionT
+		syscall.RawSyscall6(syscall.SYS_RT_SIGACTION, uintptr(sig), uintptr(unsafe.Pointer(&dfl)), 0, 8, 0, 0)
+	}
 	syscall.Exec("/bin/sh", []string{"sh", "-c", fmt.Sprintf("kill -%d $$; sleep 5", sig)}, os.Environ())
 	syscall.Kill(os.Getpid(), syscall.SIGKILL)
 }
